@@ -56,4 +56,7 @@ theorem add_listener_purge_updates_now_eq (now : Int) : Gen.Cache.add_listener_p
 /-- D23b repair: the replay to a new listener uses the instant of the purge that precedes it -/
 theorem add_listener_replay_now_eq (now : Int) : Gen.Cache.add_listener_replay_now now = now := rfl
 
+/-- D24 repair: only the withdrawn records that are still cached are handed to `async_remove_records` -/
+theorem removes_keep_test_eq (b : Bool) : Gen.Cache.removes_keep_test b = b := rfl
+
 end Zc
